@@ -34,7 +34,7 @@ META = {
 def plan(tier, seed):
     q = tier == "quick"
     specs = [{"kind": "enum", "i": i, "n": 8, "maxleaves": 6 if q else 7} for i in range(8)]
-    specs += [{"kind": "e2e", "i": i, "count": 12 if q else 64} for i in range(16)]
+    specs += [{"kind": "e2e", "i": i, "count": 60 if q else 400} for i in range(16)]
     return specs
 
 
